@@ -25,3 +25,6 @@ def run(ctx):
     for kinds, label in ((("plain",), "plain environment"), (("space",), "continuous worlds"), (("grid", "line", "grid2d"), "grid worlds")):
         runs = _world.random_runs(ctx, n, kinds=kinds, mods="clean", length=50, weights=W, n_ids=3)
         _world.validate_runs(ctx, runs, f"random add/remove/lookup histories with colliding ids and injected errors, {label}")
+    if not q:
+        from .. import suite
+        suite.run(ctx, ["space"])
